@@ -20,10 +20,19 @@ func (w *W) tok(s string) *W {
 	w.sb.WriteString(s)
 	return w
 }
-func (w *W) Int(n int) *W      { return w.tok(fmt.Sprintf("%d", n)) }
-func (w *W) Str(s string) *W   { return w.tok(s) }
-func (w *W) Bar() *W           { return w.tok("|") }
-func (w *W) String() string    { return w.sb.String() }
+func (w *W) Int(n int) *W    { return w.tok(fmt.Sprintf("%d", n)) }
+func (w *W) Str(s string) *W { return w.tok(s) }
+func (w *W) Bar() *W         { return w.tok("|") }
+func (w *W) String() string  { return w.sb.String() }
+
+// truncate drops everything written after the first n bytes.
+func (w *W) truncate(n int) {
+	s := w.sb.String()
+	if n < len(s) {
+		w.sb.Reset()
+		w.sb.WriteString(s[:n])
+	}
+}
 func (w *W) Bool(b bool) *W {
 	if b {
 		return w.tok("1")
